@@ -187,7 +187,7 @@ Definition do_sigstr (body : list sexp) : sexp :=
   | [Str subname; Str regname; SList ts; ret] =>
       match w_tys ts, w_ret ret with
       | Some tys, Some r =>
-          let reg := mkReg (mkSig subname tys r) (if String.eqb subname regname then None else Some regname) in
+          let reg := mkReg (mkSig subname tys r) None (if String.eqb subname regname then None else Some regname) None in
           SList [Atom "sig"; Str (arc4_sig_str (registered_sig reg)); Str (dispatched_sig_str reg);
                  Str (spec_sig_str (spec_of reg)); p_bool (routable (r_sig reg))]
       | _, _ => err "sigstr: bad type"
